@@ -93,7 +93,7 @@ Qed.
 
 Lemma poll_response_Z c : fx_close (fx c) = true -> forall fuel s, Sealed s -> Z s (poll_response fuel c s).
 Proof.
-  intros FX. induction fuel as [|f IH]; intros s S; cbn [poll_response].
+  intros FX. induction fuel as [|f IH]; intros s S; cbn [poll_response]; rewrite ?body_if.
   - apply Z_same; [|reflexivity]. destruct S as [S|S]; [left; s1 S|right; s2 S].
   - destruct S as [S|S].
     + destruct S as (A & B & C & D). destruct (dstate s) eqn:Ed; try discriminate.
